@@ -969,7 +969,7 @@ impl Property for P16 {
             let small = ValSpec { ty: Ty::Bytes, size: 3, seed: 7 };
             for g in [u32::MAX, 5 << 20] {
                 let lane = if g == u32::MAX { vec![] } else { vec![Step::Xfer(g), Step::Pending, Step::Xfer(g), Step::Xfer(g)] };
-                out.push(C16 { sink: lane, caller: vec![Decide::Cancel], max_len_mode: 1, ..base(vec![it(small.clone()), it(bytes_spec_with_encoding_len((16 << 20) + 11)), it(small.clone())]) });
+                out.push(C16 { sink: lane, caller: vec![Decide::Cancel], max_len_mode: 1, ..base(vec![it(small.clone()), it(spec_with_encoding_len(Ty::Str, (16 << 20) + 11)), it(small.clone())]) });
             }
             out.push(base((0..65_700u64).map(|i| it(ValSpec { ty: Ty::U64, size: 0, seed: i })).collect()));
         }
